@@ -10,8 +10,9 @@
     `\"` does not toggle, empty pieces are dropped;
   * ParseKnownHosts never indexes out of range (`parseKnownHosts_no_panic`); all other parsers are
     total functions of the model with no panic outcome at all.
-  Not proved (differential only: `back=1` on every `pub` op): the whole-line statement
-  `authorized_roundtrip_full`.
+  * the whole line: ParseAuthorizedKey(MarshalAuthorizedKey(k)) = (k, no comment, no options, empty rest)
+    for every key / certificate that is the parse of its own marshalling (`authorized_roundtrip`,
+    `authorized_roundtrip_plain`, `authorized_roundtrip_cert`, `authorized_roundtrip_full_holds`).
 -/
 import XC.Model.C38
 import XC.Proofs.C41
@@ -291,14 +292,429 @@ theorem parseKnownHosts_no_panic (o : PtOracle) : ∀ (f : Nat) (inp : Bytes), p
         · exact ih _
 
 
-/-! ## whole-line round trip (statement only) -/
+/-! ## whole-line round trip: ParseAuthorizedKey ∘ MarshalAuthorizedKey -/
 
-/-- `ParseAuthorizedKey(MarshalAuthorizedKey(k))` returns `k`, no comment, no options, empty rest.
-    Not proved as a whole (it composes `b64_roundtrip`, the key round trips above and the line
-    scanner on a line without blanks in the type name); checked on every `pub` op (`back=1`). -/
+theorem spTab_space (c : UInt8) (h : isAsciiSpace c = false) : isSpTab c = false := by
+  unfold isSpTab; unfold isAsciiSpace at h
+  simp only [Bool.or_eq_false_iff, Bool.and_eq_false_iff, decide_eq_false_iff_not] at h ⊢
+  refine ⟨h.1, ?_⟩
+  intro h9; subst h9
+  rcases h.2 with h2 | h2 <;> exact absurd (by decide) h2
+
+theorem ne10_of_nonspace (c : UInt8) (h : isAsciiSpace c = false) : c ≠ 10 := by
+  intro e; subst e; exact absurd h (by decide)
+
+theorem ne13_of_nonspace (c : UInt8) (h : isAsciiSpace c = false) : c ≠ 13 := by
+  intro e; subst e; exact absurd h (by decide)
+
+theorem cutLine_append (x : Bytes) (h : ∀ c ∈ x, c ≠ 10) : cutLine (x ++ [10]) = (x, some []) := by
+  induction x with
+  | nil => rfl
+  | cons a t ih =>
+    have ha : a ≠ 10 := h a (List.mem_cons_self ..)
+    simp only [List.cons_append, cutLine, ha, ↓reduceIte]
+    rw [ih (fun c hc => h c (List.mem_cons_of_mem _ hc))]
+
+theorem cutCR_id (x : Bytes) (h : ∀ c ∈ x, c ≠ 13) : cutCR x = x := by
+  unfold cutCR
+  induction x with
+  | nil => rfl
+  | cons a t ih =>
+    have ha : a ≠ 13 := h a (List.mem_cons_self ..)
+    simp only [List.takeWhile_cons, ha, ne_eq, not_false_eq_true, decide_true, ↓reduceIte, List.cons.injEq, true_and]
+    exact ih (fun c hc => h c (List.mem_cons_of_mem _ hc))
+
+theorem dropWhile_head (p : UInt8 → Bool) (a : UInt8) (r : Bytes) (h : p a = false) :
+    (a :: r).dropWhile p = a :: r := by
+  simp only [List.dropWhile_cons, h, Bool.false_eq_true, ↓reduceIte]
+
+/-- a list whose first and last bytes are not white space is its own TrimSpace -/
+theorem trimSpace_id (a z : UInt8) (mid : Bytes) (r : Bytes) (hx : (a :: mid).reverse = z :: r)
+    (ha : isAsciiSpace a = false) (hz : isAsciiSpace z = false) : trimSpace (a :: mid) = a :: mid := by
+  unfold trimSpace trimLeft
+  rw [dropWhile_head _ a mid ha, hx, dropWhile_head _ z r hz, ← hx, List.reverse_reverse]
+
+theorem splitSpTab_append (t y : Bytes) (b : UInt8) (hb : isSpTab b = true) (h : ∀ c ∈ t, isSpTab c = false) :
+    splitSpTab (t ++ b :: y) = some (t, b :: y) := by
+  induction t with
+  | nil => simp only [List.nil_append, splitSpTab, hb, ↓reduceIte]
+  | cons a t ih =>
+    have ha := h a (List.mem_cons_self ..)
+    simp only [List.cons_append, splitSpTab, ha, Bool.false_eq_true, ↓reduceIte]
+    rw [ih (fun c hc => h c (List.mem_cons_of_mem _ hc))]
+    rfl
+
+theorem splitSpTab_none (x : Bytes) (h : ∀ c ∈ x, isSpTab c = false) : splitSpTab x = none := by
+  induction x with
+  | nil => rfl
+  | cons a t ih =>
+    have ha := h a (List.mem_cons_self ..)
+    simp only [splitSpTab, ha, Bool.false_eq_true, ↓reduceIte]
+    rw [ih (fun c hc => h c (List.mem_cons_of_mem _ hc))]
+    rfl
+
+/-! base64 output contains no white space -/
+
+theorem b64Char_nonspace : ∀ v, v < 64 → isAsciiSpace (b64Char v) = false := by decide +kernel
+
+theorem b64Encode_nonspace : ∀ (n : Nat) (x : Bytes), x.length ≤ n → ∀ c ∈ b64Encode x, isAsciiSpace c = false := by
+  intro n
+  induction n with
+  | zero =>
+    intro x hx c hc
+    cases x with
+    | nil => simp [b64Encode] at hc
+    | cons a t => simp at hx
+  | succ n ih =>
+    intro x hx c hc
+    have pad : isAsciiSpace 61 = false := by decide
+    match x, hx with
+    | [], _ => simp [b64Encode] at hc
+    | [a], _ =>
+      have ha := u8_lt a
+      simp only [b64Encode, List.mem_cons, List.not_mem_nil, or_false] at hc
+      rcases hc with rfl | rfl | rfl | rfl
+      · exact b64Char_nonspace _ (by omega)
+      · exact b64Char_nonspace _ (by omega)
+      · exact pad
+      · exact pad
+    | [a, b], _ =>
+      have ha := u8_lt a; have hb := u8_lt b
+      simp only [b64Encode, List.mem_cons, List.not_mem_nil, or_false] at hc
+      rcases hc with rfl | rfl | rfl | rfl
+      · exact b64Char_nonspace _ (by omega)
+      · exact b64Char_nonspace _ (by omega)
+      · exact b64Char_nonspace _ (by omega)
+      · exact pad
+    | a :: b :: d :: r, hx =>
+      have ha := u8_lt a; have hb := u8_lt b; have hd := u8_lt d
+      rw [b64Encode] at hc
+      simp only [List.mem_cons] at hc
+      rcases hc with rfl | rfl | rfl | rfl | hc
+      · exact b64Char_nonspace _ (by omega)
+      · exact b64Char_nonspace _ (by omega)
+      · exact b64Char_nonspace _ (by omega)
+      · exact b64Char_nonspace _ (by omega)
+      · exact ih r (by simp only [List.length_cons] at hx; omega) c hc
+
+theorem b64Encode_ne_nil (a : UInt8) (t : Bytes) : b64Encode (a :: t) ≠ [] := by
+  cases t with
+  | nil => simp [b64Encode]
+  | cons b t2 =>
+    cases t2 with
+    | nil => simp [b64Encode]
+    | cons c t3 => simp [b64Encode]
+
+
+/-! key type names contain no white space and do not start with '#' -/
+
+def cleanName (t : Bytes) : Bool :=
+  !t.isEmpty && t.all (fun c => !isAsciiSpace c) && (t.head? != some 35)
+
+theorem plain_type_clean (k : PubKey) : cleanName k.type = true := by
+  cases k with
+  | ecdsa bits pt =>
+    show cleanName (nm "ecdsa-sha2-" ++ curveName bits) = true
+    unfold curveName
+    split <;> decide
+  | rsa e n => show cleanName algoRSA = true; decide
+  | dsa p q g y => show cleanName algoDSA = true; decide
+  | skecdsa pt app => show cleanName algoSKECDSA = true; decide
+  | ed25519 kb => show cleanName algoED25519 = true; decide
+  | sked25519 kb app => show cleanName algoSKED25519 = true; decide
+
+theorem cert_names_clean : C41.certKeyAlgoNames.all (fun p => cleanName p.1) = true := by decide +kernel
+
+theorem anykey_type_clean (k : C41.AnyKey) (t : Bytes) (h : k.type = some t) : cleanName t = true := by
+  cases k with
+  | plain p =>
+    simp only [C41.AnyKey.type, Option.some.injEq] at h
+    subst h; exact plain_type_clean p
+  | cert c =>
+    simp only [C41.AnyKey.type, C41.certTypeOf] at h
+    cases hf : C41.certKeyAlgoNames.find? (fun p => p.2 = c.key.type) with
+    | none => rw [hf] at h; cases h
+    | some p =>
+      rw [hf] at h
+      simp only [Option.map_some, Option.some.injEq] at h
+      subst h
+      exact List.all_eq_true.mp cert_names_clean p (List.mem_of_find?_eq_some hf)
+
+theorem cleanName_spec (t : Bytes) (h : cleanName t = true) :
+    ∃ a r, t = a :: r ∧ a ≠ 35 ∧ ∀ c ∈ t, isAsciiSpace c = false := by
+  unfold cleanName at h
+  simp only [Bool.and_eq_true, Bool.not_eq_true', List.all_eq_true, bne_iff_ne, ne_eq] at h
+  obtain ⟨⟨h1, h2⟩, h3⟩ := h
+  cases t with
+  | nil => simp at h1
+  | cons a r =>
+    refine ⟨a, r, rfl, ?_, fun c hc => by simpa using h2 c hc⟩
+    intro e; subst e; simp at h3
+
+/-- **authorized_roundtrip**: for every key or certificate `k` that is the parse of its own marshalling,
+    `ParseAuthorizedKey(MarshalAuthorizedKey(k))` returns `k`, no comment, no options, and the empty rest -/
+theorem authorized_roundtrip (o : PtOracle) (k : C41.AnyKey) (m line : Bytes)
+    (hm : k.marshal = some m) (hp : C41.parsePublicKey o m = some k) (hl : marshalAuthorizedKey k = some line) :
+    parseAuthorizedKey o line = .ok k [] [] (some []) := by
+  -- the line
+  unfold marshalAuthorizedKey at hl
+  cases ht : k.type with
+  | none => rw [ht] at hl; cases hl
+  | some t =>
+    rw [ht, hm] at hl
+    simp only [Option.some.injEq] at hl
+    obtain ⟨a, tr, hta, h35, htc⟩ := cleanName_spec t (anykey_type_clean k t ht)
+    -- m is not empty (parsePublicKey [] fails)
+    have hmne : ∃ m0 mr, m = m0 :: mr := by
+      cases m with
+      | nil =>
+        have hn : C41.parsePublicKey o [] = none := rfl
+        rw [hn] at hp; cases hp
+      | cons m0 mr => exact ⟨m0, mr, rfl⟩
+    obtain ⟨m0, mr, hmc⟩ := hmne
+    have hbc : ∀ c ∈ b64Encode m, isAsciiSpace c = false := b64Encode_nonspace _ m (Nat.le_refl _)
+    have hbne : b64Encode m ≠ [] := by rw [hmc]; exact b64Encode_ne_nil m0 mr
+    obtain ⟨z, br, hbr⟩ : ∃ z br, (b64Encode m).reverse = z :: br := by
+      cases hrev : (b64Encode m).reverse with
+      | nil => exact absurd (List.reverse_eq_nil_iff.mp hrev) hbne
+      | cons z br => exact ⟨z, br, rfl⟩
+    have hz : isAsciiSpace z = false := hbc z (by
+      have : z ∈ (b64Encode m).reverse := by rw [hbr]; exact List.mem_cons_self ..
+      exact List.mem_reverse.mp this)
+    obtain ⟨b0, bt, hb0⟩ : ∃ b0 bt, b64Encode m = b0 :: bt := by
+      cases hb : b64Encode m with
+      | nil => exact absurd hb hbne
+      | cons b0 bt => exact ⟨b0, bt, rfl⟩
+    -- L = the line without its newline
+    let L := t ++ 32 :: b64Encode m
+    have hline : line = L ++ [10] := by rw [← hl]; simp [L]
+    have hLc : ∀ c ∈ L, c ≠ 10 ∧ c ≠ 13 := by
+      intro c hc
+      simp only [L, List.mem_append, List.mem_cons] at hc
+      rcases hc with hc | rfl | hc
+      · exact ⟨ne10_of_nonspace c (htc c hc), ne13_of_nonspace c (htc c hc)⟩
+      · exact ⟨by decide, by decide⟩
+      · exact ⟨ne10_of_nonspace c (hbc c hc), ne13_of_nonspace c (hbc c hc)⟩
+    have hLcons : L = a :: (tr ++ 32 :: b64Encode m) := by simp [L, hta]
+    have hLrev : (a :: (tr ++ 32 :: b64Encode m)).reverse = z :: (br ++ 32 :: t.reverse) := by
+      rw [← hLcons]; simp [L, hbr]
+    have haS : isAsciiSpace a = false := htc a (by rw [hta]; exact List.mem_cons_self ..)
+    -- the key field
+    have hkf : parseKeyField o (32 :: b64Encode m) = some (k, []) := by
+      unfold parseKeyField
+      have htrim : trimSpace (32 :: b64Encode m) = b64Encode m := by
+        unfold trimSpace trimLeft
+        have h32 : isAsciiSpace 32 = true := by decide
+        rw [List.dropWhile_cons, if_pos h32, hb0, dropWhile_head _ b0 bt (by rw [hb0] at hbc; exact hbc b0 (List.mem_cons_self ..))]
+        rw [← hb0, hbr, dropWhile_head _ z br hz, ← hbr, List.reverse_reverse]
+      simp only [htrim, splitSpTab_none _ (fun c hc => spTab_space c (hbc c hc)), b64_roundtrip, hp]
+      rfl
+    -- one line
+    have hal : authorizedLine o L (some []) = some (.ok k [] [] (some [])) := by
+      unfold authorizedLine
+      rw [cutCR_id L (fun c hc => (hLc c hc).2), hLcons, trimSpace_id a z _ _ hLrev haS hz, ← hLcons]
+      have hsp : splitSpTab L = some (t, 32 :: b64Encode m) :=
+        splitSpTab_append t _ 32 (by decide) (fun c hc => spTab_space c (htc c hc))
+      rw [hLcons]
+      simp only [h35, ↓reduceIte]
+      rw [← hLcons, hsp]
+      simp only [hkf, ht, ↓reduceIte]
+    unfold parseAuthorizedKey
+    rw [hline, parseAuthorizedKeyGo]
+    have hne : (L ++ [10]).isEmpty = false := by simp [L]
+    rw [hne]
+    simp only [Bool.false_eq_true, ↓reduceIte, cutLine_append L (fun c hc => (hLc c hc).1), hal]
+
+
+theorem plain_not_arm (o : PtOracle) (k : PubKey) (hk : KeyWF o k) : C41.certArms.contains k.type = false := by
+  cases k with
+  | ecdsa bits pt =>
+    obtain ⟨hb, _, _⟩ := hk
+    rcases hb with hb | hb | hb <;> subst hb <;>
+      (show C41.certArms.contains (nm "ecdsa-sha2-" ++ curveName _) = false; decide)
+  | rsa e n => show C41.certArms.contains algoRSA = false; decide
+  | dsa p q g y => show C41.certArms.contains algoDSA = false; decide
+  | skecdsa pt app => show C41.certArms.contains algoSKECDSA = false; decide
+  | ed25519 kb => show C41.certArms.contains algoED25519 = false; decide
+  | sked25519 kb app => show C41.certArms.contains algoSKED25519 = false; decide
+
+theorem parsePublicKey_plain (o : PtOracle) (k : PubKey) (hk : KeyWF o k) :
+    C41.parsePublicKey o k.marshal = some (.plain k) := by
+  unfold C41.parsePublicKey
+  have hs : parseString k.marshal = some (k.type, k.body) := by
+    have := parseString_putString k.type (type_length k) k.body
+    simpa [PubKey.marshal] using this
+  rw [hs]
+  simp only [plain_not_arm o k hk, Bool.false_eq_true, ↓reduceIte, parsePlainKey_marshal o k hk, Option.map_some]
+
+/-- every well-formed plain key of every kind survives MarshalAuthorizedKey → ParseAuthorizedKey -/
+theorem authorized_roundtrip_plain (o : PtOracle) (k : PubKey) (hk : KeyWF o k) (line : Bytes)
+    (hl : marshalAuthorizedKey (.plain k) = some line) :
+    parseAuthorizedKey o line = .ok (.plain k) [] [] (some []) :=
+  authorized_roundtrip o (.plain k) k.marshal line rfl (parsePublicKey_plain o k hk) hl
+
+/-- … and so does every well-formed certificate -/
+theorem authorized_roundtrip_cert (o : PtOracle) (c : C41.Cert) (s : C41.Sig) (hc : C41.CertWF o c s)
+    (b line : Bytes) (hb : c.marshal = some b) (hl : marshalAuthorizedKey (.cert c) = some line) :
+    parseAuthorizedKey o line = .ok (.cert c) [] [] (some []) :=
+  authorized_roundtrip o (.cert c) b line hb (C41.marshal_parse o c s hc b hb) hl
+
+/-- non-vacuity: an Ed25519 key -/
+example : ∃ line, marshalAuthorizedKey (.plain (.ed25519 (List.replicate 32 1))) = some line ∧
+    parseAuthorizedKey (fun _ _ => false) line = .ok (.plain (.ed25519 (List.replicate 32 1))) [] [] (some []) :=
+  ⟨_, rfl, authorized_roundtrip_plain _ _ (by show (List.replicate 32 (1 : UInt8)).length = 32; decide) _ rfl⟩
+
+
+/-! ## a key is returned only when the declared type matches the blob -/
+
+/-- ParseAuthorizedKey, one line: a returned key `k` was decoded from the field after a declared type
+    token `ty` with `ty = k.Type()`; the token is the first blank-delimited word of the (trimmed) line
+    with no options returned, or the first word after the options field, with exactly the scanner's
+    candidate options returned -/
+theorem authorizedLine_type_match (o : PtOracle) (line : Bytes) (rest : Option Bytes)
+    (k : C41.AnyKey) (c : Bytes) (opts : List Bytes) (r : Option Bytes)
+    (h : authorizedLine o line rest = some (.ok k c opts r)) :
+    ∃ ty after, some ty = k.type ∧ parseKeyField o after = some (k, c) ∧ r = rest ∧
+      ((splitSpTab (trimSpace (cutCR line)) = some (ty, after) ∧ opts = []) ∨
+       (splitSpTab ((scanOptions (trimSpace (cutCR line)) {}).2.dropWhile isSpTab) = some (ty, after) ∧
+        opts = (scanOptions (trimSpace (cutCR line)) {}).1)) := by
+  unfold authorizedLine at h
+  generalize trimSpace (cutCR line) = inp at h ⊢
+  cases inp with
+  | nil => simp at h
+  | cons c0 t =>
+    simp only at h
+    split at h
+    · cases h
+    · cases hs : splitSpTab (c0 :: t) with
+      | none => rw [hs] at h; cases h
+      | some p =>
+        obtain ⟨ty, after⟩ := p
+        rw [hs] at h
+        simp only at h
+        -- first attempt
+        cases hk : parseKeyField o after with
+        | some q =>
+          obtain ⟨k1, c1⟩ := q
+          simp only [hk] at h
+          by_cases hty : some ty = k1.type
+          · simp only [hty, ↓reduceIte, Option.some.injEq, AKResult.ok.injEq] at h
+            obtain ⟨rfl, rfl, rfl, rfl⟩ := h
+            exact ⟨ty, after, hty, hk, rfl, Or.inl ⟨rfl, rfl⟩⟩
+          · simp only [hty, ↓reduceIte] at h
+            split at h
+            · cases h
+            · split at h
+              · cases h
+              · rename_i ty2 after2 hs2
+                split at h
+                · rename_i k2 c2 hk2
+                  split at h
+                  · rename_i hty2
+                    simp only [Option.some.injEq, AKResult.ok.injEq] at h
+                    obtain ⟨rfl, rfl, rfl, rfl⟩ := h
+                    exact ⟨ty2, after2, hty2, hk2, rfl, Or.inr ⟨hs2, rfl⟩⟩
+                  · cases h
+                · cases h
+        | none =>
+          simp only [hk] at h
+          split at h
+          · cases h
+          · split at h
+            · cases h
+            · rename_i ty2 after2 hs2
+              split at h
+              · rename_i k2 c2 hk2
+                split at h
+                · rename_i hty2
+                  simp only [Option.some.injEq, AKResult.ok.injEq] at h
+                  obtain ⟨rfl, rfl, rfl, rfl⟩ := h
+                  exact ⟨ty2, after2, hty2, hk2, rfl, Or.inr ⟨hs2, rfl⟩⟩
+                · cases h
+              · cases h
+
+/-- ParseKnownHosts: a returned key has the type named in the field after the hosts field
+    (field 1, or field 2 when a marker is present) -/
+theorem knownHostsFields_type_match (o : PtOracle) (kf : List Bytes) (rest : Option Bytes)
+    (marker : Bytes) (hosts : List Bytes) (k : C41.AnyKey) (c : Bytes) (r : Option Bytes)
+    (h : knownHostsFields o kf rest = .ok marker hosts k c r) :
+    ∃ pre hostsF want kp, kf = pre ++ hostsF :: want :: kp ∧ pre.length ≤ 1 ∧ k.type = some want ∧
+      parseKeyField o (joinSp kp) = some (k, c) := by
+  unfold knownHostsFields at h
+  match kf, h with
+  | [], h => cases h
+  | [] :: _, h => cases h
+  | (c0 :: m) :: tl, h =>
+    simp only at h
+    by_cases h64 : c0 = 64
+    · simp only [h64, ↓reduceIte] at h
+      match tl, h with
+      | [], h => cases h
+      | [_], h => cases h
+      | hostsF :: want :: kp, h =>
+        simp only at h
+        cases hk : parseKeyField o (joinSp kp) with
+        | none => rw [hk] at h; cases h
+        | some q =>
+          obtain ⟨k1, c1⟩ := q
+          rw [hk] at h
+          simp only at h
+          by_cases ht : k1.type ≠ some want
+          · rw [if_pos ht] at h; cases h
+          · rw [if_neg ht] at h
+            simp only [KHResult.ok.injEq] at h
+            obtain ⟨_, _, rfl, rfl, _⟩ := h
+            exact ⟨[(c0 :: m)], hostsF, want, kp, by simp, by simp, Decidable.not_not.mp ht, hk⟩
+    · simp only [h64, ↓reduceIte] at h
+      match tl, h with
+      | [], h => cases h
+      | want :: kp, h =>
+        simp only at h
+        cases hk : parseKeyField o (joinSp kp) with
+        | none => rw [hk] at h; cases h
+        | some q =>
+          obtain ⟨k1, c1⟩ := q
+          rw [hk] at h
+          simp only at h
+          by_cases ht : k1.type ≠ some want
+          · rw [if_pos ht] at h; cases h
+          · rw [if_neg ht] at h
+            simp only [KHResult.ok.injEq] at h
+            obtain ⟨_, _, rfl, rfl, _⟩ := h
+            exact ⟨[], c0 :: m, want, kp, by simp, by simp, Decidable.not_not.mp ht, hk⟩
+
+
+/-! ## non-vacuity examples -/
+
+/-- `KeyWF` is satisfiable for an RSA key (so `parsePlain_body` / `parsePlainKey_marshal` apply) … -/
+example : KeyWF (fun _ _ => false) (.rsa 65537 35) := by
+  refine ⟨by decide, by decide, by decide +kernel, by decide +kernel, by decide +kernel, by decide +kernel⟩
+/-- … and for an ECDSA key under an oracle that accepts its point -/
+example : KeyWF (fun _ _ => true) (.ecdsa 384 [4, 1, 2]) := ⟨Or.inr (Or.inl rfl), rfl, by decide⟩
+
+def exKey : C41.AnyKey := .plain (.ed25519 (List.replicate 32 1))
+def exLine : Bytes := nm "no-pty,command=\"a, b\" ssh-ed25519 " ++ b64Encode ((exKey.marshal).getD []) ++ nm " me@host"
+
+/-- an accepted authorized_keys line with options and a comment (hypothesis of `authorizedLine_type_match`) -/
+example : authorizedLine (fun _ _ => false) exLine none =
+    some (.ok exKey (nm "me@host") [nm "no-pty", nm "command=\"a, b\""] none) := by decide +kernel
+
+/-- the same line with a different declared type is not accepted -/
+example : authorizedLine (fun _ _ => false)
+    (nm "ssh-rsa " ++ b64Encode ((exKey.marshal).getD [])) none = none := by decide +kernel
+
+/-- an accepted known_hosts entry with a marker (hypothesis of `knownHostsFields_type_match`) -/
+example : knownHostsFields (fun _ _ => false)
+    [nm "@cert-authority", nm "*.example.com,h2", nm "ssh-ed25519", b64Encode ((exKey.marshal).getD [])] none =
+    .ok (nm "cert-authority") [nm "*.example.com", nm "h2"] exKey [] none := by decide +kernel
+
+/-- the whole-line statement, as a `Prop` (kept under its old name) -/
 def authorized_roundtrip_full : Prop :=
   ∀ (o : PtOracle) (k : C41.AnyKey) (m line : Bytes),
     k.marshal = some m → C41.parsePublicKey o m = some k → marshalAuthorizedKey k = some line →
     ∃ r, parseAuthorizedKey o line = .ok k [] [] r ∧ (r = some [] ∨ r = none)
+
+theorem authorized_roundtrip_full_holds : authorized_roundtrip_full :=
+  fun o k m line hm hp hl => ⟨some [], authorized_roundtrip o k m line hm hp hl, Or.inl rfl⟩
 
 end XC.C38
